@@ -9,15 +9,28 @@ import Toodee.Properties.C04
 namespace Toodee
 variable {α : Type}
 
+/-- **the Impl-model refines the specification on owned arrays** (`TooDee`'s overrides and the defaults it inherits) -/
+theorem C13_run_owned (m : Mode) (lim : Nat) (t : TD α) (h : t.Inv) (op : MOp α) (hs : op.Sane) (hsrc : op.srcOk) :
+    (Recv.root t).run m lim t.data op = op.spec t.asView lim t.data :=
+  run_owned_spec m lim t h op hs hsrc
+
+/-- **… and on any third-party implementor** that provides the required methods as `TooDee` does (every trait default runs) -/
+theorem C13_run_ext (m : Mode) (lim : Nat) (t : TD α) (h : t.Inv) (op : MOp α) (hs : op.Sane) (hsrc : op.srcOk) :
+    (Recv.ext t).run m lim t.data op = op.spec t.asView lim t.data :=
+  run_ext_spec m lim t h op hs hsrc
+
 theorem C13_overrides_agree (m : Mode) (lim : Nat) (t : TD α) (h : t.Inv) (op : MOp α) (hs : op.Sane) (hsrc : op.srcOk) :
     (Recv.ext t).run m lim t.data op = (Recv.root t).run m lim t.data op := by
-  sorry
+  rw [C13_run_ext m lim t h op hs hsrc, C13_run_owned m lim t h op hs hsrc]
 
 /-- an owned array never ends a mutating call in undefined behaviour, keeps its length, and is the whole-extent view of itself -/
 theorem C13_owned_op (m : Mode) (lim : Nat) (t : TD α) (h : t.Inv) (op : MOp α) (hs : op.Sane) (hsrc : op.srcOk) :
     (Recv.root t).run m lim t.data op ≠ .error .ub ∧ (Recv.root t).run m lim t.data op ≠ .error .fuel ∧
     (∀ d, (Recv.root t).run m lim t.data op = .ok d → d.length = t.data.length) ∧
     (Recv.root t).run m lim t.data op = (Recv.vmut t.asView).run m lim t.data op := by
-  sorry
+  obtain ⟨hvi, _⟩ := TD.asView_inv t h
+  obtain ⟨f1, f2, f3⟩ := C04_spec_frame lim t.asView t.data hvi op hs
+  rw [C13_run_owned m lim t h op hs hsrc, C04_run_view m lim t.asView t.data hvi op hs hsrc]
+  exact ⟨f1, f2, fun d hd => (f3 d hd).1, rfl⟩
 
 end Toodee
